@@ -3,9 +3,67 @@
 // file, You can obtain one at https://mozilla.org/MPL/2.0/.
 
 use crate::{config::Config, fmt::to_ansi_string, GLOBAL};
+use rink_core::types::{BigInt, BigRat, Dimensionality, Number, Numeric};
 use rink_core::{eval, Context};
 use rink_sandbox::Service;
+use serde_derive::{Deserialize, Serialize};
 use std::sync::{Arc, Mutex};
+
+/// The previous answer, in a form that can travel between the two
+/// processes: the serialized form of a number is made for display and
+/// cannot be read back. The parent keeps it, so that `ans` is still
+/// there after the child had to be restarted.
+#[derive(Serialize, Deserialize, Clone, Debug)]
+pub struct Ans {
+    value: AnsValue,
+    unit: Dimensionality,
+}
+
+#[derive(Serialize, Deserialize, Clone, Debug)]
+enum AnsValue {
+    Rational { numer: String, denom: String },
+    Float(f64),
+}
+
+impl Ans {
+    fn new(number: &Number) -> Ans {
+        let value = match number.value {
+            Numeric::Float(value) => AnsValue::Float(value),
+            Numeric::Rational(_) => {
+                let (numer, denom) = number.value.to_rational();
+                AnsValue::Rational {
+                    numer: numer.to_string(),
+                    denom: denom.to_string(),
+                }
+            }
+        };
+        Ans {
+            value,
+            unit: number.unit.clone(),
+        }
+    }
+
+    fn number(&self) -> Option<Number> {
+        let value = match self.value {
+            AnsValue::Float(value) => Numeric::Float(value),
+            AnsValue::Rational {
+                ref numer,
+                ref denom,
+            } => {
+                let numer = BigInt::from_str_radix(numer, 10).ok()?;
+                let denom = BigInt::from_str_radix(denom, 10).ok()?;
+                if denom == BigInt::zero() {
+                    return None;
+                }
+                Numeric::from(BigRat::ratio(&numer, &denom))
+            }
+        };
+        Some(Number {
+            value,
+            unit: self.unit.clone(),
+        })
+    }
+}
 
 pub struct RinkService {
     config: Config,
@@ -13,8 +71,8 @@ pub struct RinkService {
 }
 
 impl Service for RinkService {
-    type Req = String;
-    type Res = Result<String, String>;
+    type Req = (String, Option<Ans>);
+    type Res = (Result<String, String>, Option<Ans>);
     type Config = Config;
 
     fn args(_config: &Self::Config) -> Vec<std::ffi::OsString> {
@@ -35,12 +93,16 @@ impl Service for RinkService {
         Ok(RinkService { config, ctx })
     }
 
-    fn handle(&self, request: Self::Req) -> Self::Res {
+    fn handle(&self, (query, ans): Self::Req) -> Self::Res {
         let mut ctx = self.ctx.lock().unwrap();
-        match eval(&mut ctx, &request) {
+        // This may be a new process, which knows nothing of what the
+        // previous one answered.
+        ctx.previous_result = ans.as_ref().and_then(Ans::number);
+        let reply = match eval(&mut ctx, &query) {
             Ok(value) => Ok(to_ansi_string(&self.config, &value)),
             Err(err) => Err(to_ansi_string(&self.config, &err)),
-        }
+        };
+        (reply, ctx.previous_result.as_ref().map(Ans::new))
     }
 
     fn timeout(config: &Self::Config) -> std::time::Duration {
